@@ -42,6 +42,13 @@ class Unlisted(Exception):
     pass
 
 
+class ListedEmpty(Listed):
+    """A 'collection of failures' error that is empty: defines __len__, so the instance is falsy."""
+
+    def __len__(self):
+        return 0
+
+
 def _loop(seed=0):
     engine.patch_threads()
     loop = VLoop(seed=seed, horizon=100000.0, max_steps=400_000)
@@ -98,7 +105,7 @@ def exec_retry(case) -> Result:
         if oc['k'] == 'ok':
             made[k] = ('val', f'v{k}')
             return made[k][1]
-        exc = (Listed2 if oc.get('sub') else Listed)(f'l{k}') if oc['k'] == 'listed' else Unlisted(f'u{k}')
+        exc = (Listed2 if oc.get('sub') else (ListedEmpty if oc.get('falsy') else Listed))(f'l{k}') if oc['k'] == 'listed' else Unlisted(f'u{k}')
         if oc.get('cause'):  # `raise X from Y`: only the type of X decides whether the attempt is retried
             exc.__cause__ = (Listed if oc['cause'] == 'listed' else Unlisted)('the cause')
         made[k] = ('exc', exc)
@@ -219,7 +226,7 @@ class RetryFamily(Family):
                 c = rng.choice(['ok', 'listed', 'listed', 'listed', 'unlisted', 'overrun'])
                 # (with timeout=None a very long attempt is simply a long attempt)
                 seq.append({'k': 'ok' if c == 'overrun' else c, 'd': (p['timeout'] or 30.0) + rng.choice([0.5, 3.0]) if c == 'overrun' else rng.choice([0.0, 0.01, 0.3]), 'sub': rng.random() < 0.3,
-                            'cause': rng.choice([None, None, 'listed', 'unlisted'])})
+                            'cause': rng.choice([None, None, 'listed', 'unlisted']), 'falsy': rng.random() < 0.25})
             i += 1
             yield {'family': self.name, 'i': i, 'p': p, 'seq': seq}
             starts, final, end = ref_timetable(p, seq)
@@ -496,7 +503,9 @@ def exec_sem(case) -> Result:
             inprog[key] -= 1
             obs[i]['exit'] = loop.time()
 
-    class KA:
+    class _KBase:
+        # ONE decorated function object reached through instances of two classes (inherited method): 'class' scope means the
+        # runtime class of the instance, so KA and KB must not share slots
         @deco('class')
         async def cm(self, i):
             return await body(i)
@@ -505,10 +514,11 @@ def exec_sem(case) -> Result:
         async def sm(self, i):
             return await body(i)
 
-    class KB:
-        @deco('class')
-        async def cm(self, i):
-            return await body(i)
+    class KA(_KBase):
+        pass
+
+    class KB(_KBase):
+        pass
 
     @deco('global')
     async def gf(i):
